@@ -186,7 +186,6 @@ impl PrometheusBuilder {
     where
         A: AsRef<str>,
     {
-        use std::net::IpAddr;
         use std::str::FromStr;
 
         // Accept both a subnet in CIDR notation and a plain IP address, which is the subnet holding
